@@ -147,6 +147,28 @@ CHECKS = {
         ref="DESIGN.md 6 (C09)",
         technique="TLC-enumerated placements x contexts rendered to real generated classes with logging callbacks; TLC "
                   "trace validation of firing log, metadata placement and emitted call against the callback plan"),
+    "C06": dict(
+        text="Comprehensions: TLC enumerates programs with list comprehensions / generator expressions (one for, 0-2 ifs, "
+             "nested in element / iterable / condition position and inside operator lambdas, targets re-using outer "
+             "names); the real resolve_syntatic_sugar output is judged by TLC: no comprehension left, well-scoped, and "
+             "Eval(out) = Eval(in) where Sem gives comprehension nodes their Python meaning. Constructors: spec/"
+             "GenCtor.tla enumerates field lists x positional / keyword / unknown / surplus / doubly-bound arguments x "
+             "dataclass / NamedTuple x direct call / through Select with a real captured class; TLC judges the emitted "
+             "dictionary against Python's binding (Passes.CtorDictOK) or demands ValueError for malformed calls; tuple "
+             "targets and async comprehensions must raise ValueError.",
+        ref="DESIGN.md 6 (C06), A.5",
+        technique="TLC-generated comprehension programs and constructor cases replayed into the real sugar pass; TLC "
+                  "trace validation (semantic equality with Python's comprehension meaning; Python field binding)"),
+    "C13": dict(
+        text="spec/GenEmbed.tla builds values step by step: all strings up to length 2 (thorough: 3) over {' \" \\ "
+             "newline a ( + # e-acute}, ints (negative, > 2^64), floats, bools, None, bytes, wrapped in list / tuple / "
+             "dict; each is handed to every entry point it fits (MetaData value and key, the four As* column lists, file "
+             "and tree names, a declared default of a typed method, a variable captured by a real lambda). TLC "
+             "(TraceEmbed) evaluates the literal found in the emitted query (Embed.LitEval) and compares it with the "
+             "value (same type tag), requires literal node kinds only, and demands ValueError for non-transportable "
+             "values inside lambdas.",
+        ref="DESIGN.md 6 (C13)",
+        technique="TLC-enumerated values x API entry points; TLC trace validation of LitEval(literal node) = value"),
 }
 
 ORDER = ["C%02d" % i for i in range(1, 21)]
